@@ -49,10 +49,14 @@ def main(tier_, replay=None):
     strategies = ["last", "deepest", "shallowest-last", "random", "first"]
     viol, mism, total_runs, schedules = [], [], 0, set()
     files, meta = [], []
-    for si in range(n_schemas + 1):
+    for si in range(-1, n_schemas + 1):
         if si == 0:
             s = c08.handwritten_schema()
             base = c08.handwritten_cases(rng, c08.HAND_MUTATIONS)
+        elif si == -1:
+            # one object type as query AND mutation root (own random stream: the main one is untouched)
+            s = c08.shared_root_schema()
+            base = c08.handwritten_cases(random.Random(seed * 977 + 99), [q.replace("on Mutation", "on Query") for q in c08.HAND_MUTATIONS[:3]])
         else:
             s = execgen.gen_exec_schema(rng, with_mutation=True, n_objects=rng.randrange(2, 4))
             base = c08.small_cases(rng, s, n_cases, kinds=("mutation",))
@@ -69,7 +73,8 @@ def main(tier_, replay=None):
                 base.append(dict(c, query=q + " query ZR { __typename }", opname=name))
             else:
                 base.append(dict(c, query="query ZR { __typename } " + q + " query ZS { __typename }", opname=name))
-        cases = asyncio.run(c08.fault_variants(s, base[:len(c08.HAND_MUTATIONS)] if si == 0 else base, rng, per_fault,
+        cases = asyncio.run(c08.fault_variants(s, base[:len(c08.HAND_MUTATIONS)] if si == 0 else base,
+                                               random.Random(seed * 977 + 98) if si == -1 else rng, 2 if si == -1 else per_fault,
                                                root_kinds=("raise_coercible",) if si == 0 else ()))
         if si == 0:
             cases += asyncio.run(c08.fault_variants(s, base[len(c08.HAND_MUTATIONS):], rng, per_fault))
@@ -98,7 +103,7 @@ def main(tier_, replay=None):
             items.append((c, gen.parse_query(c["query"]), r, cfg))
         step = 40
         for j in range(0, len(items), step):
-            files.append(("C09_s%d_%d_%d" % (seed, si, j), c08.sched_cases_file(s, items[j:j + step])))
+            files.append(("C09_s%d_%s_%d" % (seed, "sr" if si < 0 else str(si), j), c08.sched_cases_file(s, items[j:j + step])))
             meta.append((s, items[j:j + step]))
     results = common.run_coq_many(files)
     for (s, items), (ok, so, se) in zip(meta, results):
